@@ -74,15 +74,65 @@ func (s smp) Copy() chunks.Sample {
 	return s
 }
 
+// sliceIter is a chunkenc.Iterator over a sample slice that behaves like the TSDB chunk
+// iterators at the end of the data: once exhausted, AtT keeps returning the last timestamp
+// (storage's list iterator panics there instead).
+type sliceIter struct {
+	ss  []smp
+	idx int // -1 before the first Next/Seek
+	t   int64
+}
+
+func (it *sliceIter) cur() smp { return it.ss[it.idx] }
+func (it *sliceIter) Next() chunkenc.ValueType {
+	if it.idx+1 >= len(it.ss) {
+		it.idx = len(it.ss)
+		return chunkenc.ValNone
+	}
+	it.idx++
+	it.t = it.cur().t
+	return it.cur().Type()
+}
+func (it *sliceIter) Seek(t int64) chunkenc.ValueType {
+	if it.idx >= len(it.ss) {
+		return chunkenc.ValNone
+	}
+	if it.idx < 0 {
+		if vt := it.Next(); vt == chunkenc.ValNone {
+			return vt
+		}
+	}
+	for it.cur().t < t {
+		if vt := it.Next(); vt == chunkenc.ValNone {
+			return vt
+		}
+	}
+	return it.cur().Type()
+}
+func (it *sliceIter) At() (int64, float64) { return it.cur().t, it.cur().f }
+func (it *sliceIter) AtHistogram(*histogram.Histogram) (int64, *histogram.Histogram) {
+	return it.cur().t, it.cur().h.Copy()
+}
+func (it *sliceIter) AtFloatHistogram(fh *histogram.FloatHistogram) (int64, *histogram.FloatHistogram) {
+	src := it.cur().FH()
+	if fh == nil {
+		return it.cur().t, src.Copy()
+	}
+	src.CopyTo(fh)
+	return it.cur().t, fh
+}
+func (it *sliceIter) AtT() int64  { return it.t }
+func (it *sliceIter) AtST() int64 { return 0 }
+func (*sliceIter) Err() error     { return nil }
+
 // queryableMulti serves one series with several samples.
 func queryableMulti(l labels.Labels, ss []smp) storage.Queryable {
 	return &storage.MockQueryable{MockQuerier: &storage.MockQuerier{
 		SelectMockFunction: func(bool, *storage.SelectHints, ...*labels.Matcher) storage.SeriesSet {
-			cs := make([]chunks.Sample, len(ss))
-			for i, x := range ss {
-				cs[i] = x
-			}
-			return &listSet{ss: []storage.Series{storage.NewListSeries(l, cs)}}
+			sr := &storage.SeriesEntry{Lset: l, SampleIteratorFn: func(chunkenc.Iterator) chunkenc.Iterator {
+				return &sliceIter{ss: ss, idx: -1, t: math.MinInt64}
+			}}
+			return &listSet{ss: []storage.Series{sr}}
 		}}}
 }
 
@@ -860,7 +910,7 @@ func genRange(r *gen.Rand) rcase {
 	steps := []int64{30000, 60000, 120000, 300000, 360000, 420000, 780000}
 	step := steps[r.Intn(len(steps))]
 	start := times[0] - r.Range(0, 2)*step
-	if r.Chance(1, 3) {
+	if r.Chance(1, 3) || start < 0 {
 		start = times[0] // a step exactly on a sample
 	}
 	end := times[len(times)-1] + 2*step + 360000
